@@ -11,8 +11,12 @@ S      : registry of public callables: arguments unchanged (float64 / float32 / 
          lists, option dicts), repeated call bit-identical, caller-side mutation of results does not affect the next call,
          fresh-process result bit-identical
 """
+import contextlib
 import copy
 import importlib
+import io
+import os
+import warnings
 import json
 import multiprocessing as mp
 import subprocess
@@ -192,6 +196,8 @@ def registry(rng):
     add("center_image/round", center.center_image, spot, "com", crop="valid_region", round_output=True)
     add("get_image_quadrants", symmetry.get_image_quadrants, sq, symmetry_axis=(0, 1), use_quadrants=[True, False, True, True])
     add("get_image_quadrants/fourier", symmetry.get_image_quadrants, sq, symmetry_axis=0, symmetrize_method="fourier")
+    add("get_image_quadrants/split", symmetry.get_image_quadrants, sq)                       # no symmetrisation: the plain split
+    add("get_image_quadrants/split-unflipped", symmetry.get_image_quadrants, sq[:, :20], reorient=False)
     Q = tuple(rng.random((11, 11)) for _ in range(4))
     add("put_image_quadrants", symmetry.put_image_quadrants, Q, (21, 21), symmetry_axis=1)
     for kind in ("int2D", "int3D", "avg2D", "avg3D"):
@@ -377,6 +383,48 @@ def runtime(ck, tier, deep):
     ck.sample(dict(suite="S.runtime", callables=[e[0] for e in E][:12], total=len(E)))
 
 
+def disk_sessions(ck, tier):
+    """calling again with the same arguments returns the same bits — also when other methods' calls come in between and the basis
+    directory on disk is in use: each call of an interleaved session is compared with its first occurrence"""
+    import shutil
+    import tempfile
+    import abel
+    rng = np.random.default_rng(seed() + 1818)
+    half = rng.random((4, 19)) + 0.1
+    calls = {"two_point": lambda d: abel.dasch.two_point_transform(half, basis_dir=d),
+             "three_point": lambda d: abel.dasch.three_point_transform(half, basis_dir=d),
+             "onion_peeling": lambda d: abel.dasch.onion_peeling_transform(half, basis_dir=d),
+             "daun1": lambda d: abel.daun.daun_transform(half, degree=1, basis_dir=d, verbose=False),
+             "daun2": lambda d: abel.daun.daun_transform(half, degree=2, reg=("L2", 0.5), basis_dir=d, verbose=False),
+             "basex": lambda d: abel.basex.basex_transform(half, sigma=1.0, reg=1.0, basis_dir=d, verbose=False),
+             "basex2": lambda d: abel.basex.basex_transform(half, sigma=2.0, reg=1.0, basis_dir=d, verbose=False)}
+    for sess in range(6 if tier == "quick" else 40):
+        names = [list(calls)[i] for i in rng.choice(len(calls), size=3, replace=False)]
+        seq = [names[i] for i in rng.integers(0, 3, size=9)]
+        d = tempfile.mkdtemp(prefix="c18_", dir=os.environ.get("VERIF_SCRATCH"))
+        for mod in ("basex", "daun", "dasch"):
+            getattr(abel, mod).cache_cleanup()
+        first = {}
+        try:
+            for step, name in enumerate(seq):
+                ck.count(("S.disk-session", name, step), suite="S.runtime")
+                with warnings.catch_warnings(), contextlib.redirect_stdout(io.StringIO()):
+                    warnings.simplefilter("ignore")
+                    out = np.array(calls[name](d))
+                if name in first and not np.array_equal(out, first[name]):
+                    ck.violation(dict(site=name, clause="not-repeatable"), dict(session=seq[:step + 1], basis_dir="a directory, empty at the start"),
+                                 f"{name}: call {step} of the session {seq[:step + 1]} (shared basis directory) differs from the first {name} call by "
+                                 f"{np.abs(out - first[name]).max():.3g}")
+                    break
+                first.setdefault(name, out)
+        except Exception as e:
+            ck.violation(dict(site="session", clause="exception"), dict(session=seq), f"{type(e).__name__}: {e}")
+        finally:
+            shutil.rmtree(d, ignore_errors=True)
+    for mod in ("basex", "daun", "dasch"):
+        getattr(abel, mod).cache_cleanup()
+
+
 def _arrays(c):
     if isinstance(c, np.ndarray):
         return [c]
@@ -411,6 +459,7 @@ def run(tier):
     regenerate(ck)
     ck.proofs("PyAbel.Props.C18")
     runtime(ck, tier, deep or bool(ck.broken))
+    disk_sessions(ck, tier)
     return ck.finish()
 
 
